@@ -283,60 +283,59 @@ def parse_assumptions(output):
 
 
 def check_proofs(pid):
-    """Builds Properties/<pid>.vo from source and audits it.
+    """Builds Properties/<pid>.v (and <pid>f.v, the file allowed to depend on the named standard-library
+    axioms, when it exists) from source and audits them.
     Returns dict(obligations, discharged, theorems, axioms, problems)."""
     res = dict(obligations=0, discharged=0, theorems=[], axioms=[], problems=[])
-    vfile = os.path.join(COQ, "theories", "Properties", f"{pid}.v")
-    if not os.path.exists(vfile):
+    files = [f for f in (f"{pid}.v", f"{pid}f.v") if os.path.exists(os.path.join(COQ, "theories", "Properties", f))]
+    if not files:
         res["problems"].append("no property file")
         return res
-    src = open(vfile).read()
-    code = strip_comments(src)
-    thms = re.findall(r"^\s*Theorem\s+([\w']+)", code, flags=re.M)
-    res["theorems"] = thms
-    res["obligations"] = len(thms)
-    # (a) property files contain statements closed by `exact`, nothing else
-    bodies = re.findall(r"Proof\.(.*?)Qed\.", code, flags=re.S)
-    for b in bodies:
-        if not re.fullmatch(r"\s*(intros[^.;]*[.;]\s*)?(exact|apply)\s[^;]*\.\s*", b) or \
-                re.search(r"\b(lia|auto|eauto|induction|destruct|rewrite|tauto|firstorder|admit|vm_compute|reflexivity|by)\b", b):
-            res["problems"].append("property proof is not a single exact/apply: " + b.strip()[:80])
-    if len(bodies) != len(thms):
-        res["problems"].append("theorem/proof count mismatch")
-    if code.count("Print Assumptions") < len(thms):
-        res["problems"].append("missing Print Assumptions")
-    # (b) pinned statements
     pins_path = os.path.join(COQ, "pins.json")
     pins = json.load(open(pins_path)) if os.path.exists(pins_path) else {}
-    norm = sha(re.sub(r"\s+", " ", code).strip())
-    if pins.get(pid) != norm:
-        res["problems"].append(f"statement pin mismatch for {pid} (coq/pins.json)")
-    # (d) forbidden words anywhere
     res["problems"] += audit_sources()
-    # build dependencies, then compile the property file itself to capture Print Assumptions
-    ok, out = coq_make([f"theories/Properties/{pid}.vo"])
-    if not ok:
-        res["problems"].append("proof obligations do not build: " + out[-1500:])
-        return res
-    p = run_cmd(["timeout", "900", "coqc", "-Q", "theories", "DV", f"theories/Properties/{pid}.v"], cwd=COQ, check=False)
-    if p.returncode != 0:
-        res["problems"].append("property file does not compile: " + p.stdout[-1500:])
-        return res
-    blocks = parse_assumptions(p.stdout)
-    if len(blocks) < len(thms):
-        res["problems"].append(f"expected {len(thms)} Print Assumptions blocks, got {len(blocks)}")
     allax = set()
-    bad = 0
-    for b in blocks:
-        allax |= b
-        if not b <= ALLOWED_AXIOMS:
-            bad += 1
-            res["problems"].append("axioms outside the allow-list: " + ", ".join(sorted(b - ALLOWED_AXIOMS)))
+    for fname in files:
+        vfile = os.path.join(COQ, "theories", "Properties", fname)
+        code = strip_comments(open(vfile).read())
+        thms = re.findall(r"^\s*Theorem\s+([\w']+)", code, flags=re.M)
+        res["theorems"] += thms
+        res["obligations"] += len(thms)
+        # (a) property files contain statements closed by `exact`, nothing else
+        bodies = re.findall(r"Proof\.(.*?)Qed\.", code, flags=re.S)
+        for b in bodies:
+            if not re.fullmatch(r"\s*(intros[^.;]*[.;]\s*)?(exact|apply)\s[^;]*\.\s*", b) or \
+                    re.search(r"\b(lia|auto|eauto|induction|destruct|rewrite|tauto|firstorder|admit|vm_compute|reflexivity|by)\b", b):
+                res["problems"].append(f"{fname}: property proof is not a single exact/apply: " + b.strip()[:80])
+        if len(bodies) != len(thms):
+            res["problems"].append(f"{fname}: theorem/proof count mismatch")
+        if code.count("Print Assumptions") < len(thms):
+            res["problems"].append(f"{fname}: missing Print Assumptions")
+        if re.search(r"^\s*(Lemma|Definition|Fixpoint|Example|Corollary|Fact|Remark|Ltac|Notation|Instance)\b", code, flags=re.M):
+            res["problems"].append(f"{fname}: property file contains more than statements")
+        # (b) pinned statements
+        norm = sha(re.sub(r"\s+", " ", code).strip())
+        if pins.get(fname[:-2]) != norm:
+            res["problems"].append(f"statement pin mismatch for {fname} (coq/pins.json)")
+        # build dependencies, then compile the property file itself to capture Print Assumptions
+        ok, out = coq_make([f"theories/Properties/{fname}o"])
+        if not ok:
+            res["problems"].append(f"proof obligations of {fname} do not build: " + out[-1500:])
+            continue
+        p = run_cmd(["timeout", "900", "coqc", "-Q", "theories", "DV", f"theories/Properties/{fname}"], cwd=COQ, check=False)
+        if p.returncode != 0:
+            res["problems"].append(f"{fname} does not compile: " + p.stdout[-1500:])
+            continue
+        blocks = parse_assumptions(p.stdout)
+        if len(blocks) < len(thms):
+            res["problems"].append(f"{fname}: expected {len(thms)} Print Assumptions blocks, got {len(blocks)}")
+        allowed = ALLOWED_AXIOMS if fname.endswith("f.v") else set()
+        for b in blocks:
+            allax |= b
+            if not b <= allowed:
+                res["problems"].append(f"{fname}: axioms outside the allow-list: " + ", ".join(sorted(b - allowed)))
     res["axioms"] = sorted(allax)
-    if not res["problems"]:
-        res["discharged"] = len(thms)
-    else:
-        res["discharged"] = 0
+    res["discharged"] = res["obligations"] if not res["problems"] else 0
     return res
 
 
@@ -344,7 +343,7 @@ def update_pins():
     pins = {}
     d = os.path.join(COQ, "theories", "Properties")
     for f in sorted(os.listdir(d)):
-        if re.fullmatch(r"C\d+\.v", f):
+        if re.fullmatch(r"C\d+f?\.v", f):
             code = strip_comments(open(os.path.join(d, f)).read())
             pins[f[:-2]] = sha(re.sub(r"\s+", " ", code).strip())
     json.dump(pins, open(os.path.join(COQ, "pins.json"), "w"), indent=1, sort_keys=True)
